@@ -283,8 +283,6 @@ class FaultMonitor(solvex.Monitor):
                 elif cfg.get("nsamples") is None and cfg.get("memo", True) and not (s.obj <= min(before) * (1 + 1e-13) + 1e-300):
                     ex.violate("fault_displaces_best", "soln.obj=%r worse than best pre-fault value %r (fault %s at call %d, %s) [%s]" % (
                         s.obj, min(before), first["letter"], first["k"], first["site"], s.msg))
-        if s.flag == SUCCESS and (s.obj is None or not np.isfinite(s.obj)):
-            ex.violate("success_nonfinite", "success flag with obj=%r [%s]" % (s.obj, s.msg))
 
 
 class ReturnsMonitor(solvex.Monitor):
